@@ -230,6 +230,7 @@ func newRig(conf rigConf, plan Plan) *rig {
 	for _, d := range plan {
 		r.plan[d.At] = d.Do
 	}
+	vh.Epoch2011()
 	r.root = vh.NewSandbox()
 	r.t0 = time.Now()
 	r.outDir = filepath.Join(r.root, "out")
